@@ -2,6 +2,9 @@
 from ..hutil import L, S
 
 
+from ..symx import is_sym as symx_is_sym
+
+
 def make_member(W, log, required_fh=False):
     """member forecaster: a real sktime forecaster (base-class bookkeeping runs), forecasts are an
     uninterpreted function of (parameter p, cutoff, target label)"""
@@ -10,6 +13,8 @@ def make_member(W, log, required_fh=False):
     Mixin = sk._RequiredForecastingHorizonMixin if required_fh else sk._OptionalForecastingHorizonMixin
 
     class Member(Mixin, sk._SktimeForecaster):
+        NAN_P = None  # a member with this parameter value cannot forecast (returns NaN)
+
         def __init__(self, p=0, q=0):
             self.p = p
             self.q = q
@@ -31,7 +36,15 @@ def make_member(W, log, required_fh=False):
         def _predict(self, fh, X=None, return_pred_int=False, alpha=None):
             labs = L(fh.to_absolute(self.cutoff).to_pandas())
             log.append({"op": "predict", "who": S(self.p), "labels": labs, "cutoff": S(self.cutoff)})
-            return pd.Series([W.uf("forecast", [self.p, self.cutoff, l], "iii>r") for l in labs], index=pd.Index(labs))
+            if type(self).NAN_P is not None and not symx_is_sym(self.p) and self.p == type(self).NAN_P:
+                return pd.Series([float("nan")] * len(labs), index=pd.Index(labs))
+            y_pred = pd.Series([W.uf("forecast", [self.p, self.cutoff, l], "iii>r") for l in labs], index=pd.Index(labs))
+            if return_pred_int:
+                a = alpha[0] if isinstance(alpha, (list, tuple)) else alpha
+                log.append({"op": "predict_int", "who": S(self.p), "alpha": S(a)})
+                ints = pd.DataFrame({"lower": [W.uf("pi_lower", [self.p, self.cutoff, l, a], "iiir>r") for l in labs], "upper": [W.uf("pi_upper", [self.p, self.cutoff, l, a], "iiir>r") for l in labs]}, index=pd.Index(labs))
+                return y_pred, ints
+            return y_pred
 
     return Member
 
